@@ -141,7 +141,7 @@ CLAIMED = {
           "compared with the Lean client model.",
           "DESIGN.md 0.3 + 7 C18", "Lean 4 proof (client recipient bookkeeping and reply loop) + monitor + differential correspondence (cconv probe)",
           "that each read consumes exactly one reply of the peer is decided by the own-reply rule of the monitor and the correspondence"),
- "C19": C('Proved on the wire model: C19_short_lines_ok, C19_long_line_trips (the limiter latches once a line exceeds the limit), C19_long_line_refused (no prefix of an over-long line is executed), C19_tripped_ends_commands (once latched, the command loop reads no further command), C19_error_threshold (the fourth protocol error closes the connection, on the server model), C19_resume_short_ok / C19_resume_counts_pending (the limit coming back after a BDAT chunk - lineLimitReader.resume, repaired in ebe7440: what was counted before is forgotten, so lines within the maximum are never refused, and the beginning of a command line read together with the end of the chunk is counted, so an over-long line trips), C19_next_chunk_payload_not_counted / C19_unusable_bdat_line_counted_on (behind a buffered BDAT command line exactly the octets it announces are skipped: the payload of a pipelined next chunk is not command lines, what follows a completely buffered payload is counted again, and a BDAT line whose size cannot be used skips nothing - 8853bc2 and its refinement), C19_nothing_skipped_behind_mode_change (behind a buffered DATA, AUTH or STARTTLS line, whose followers may be no commands, everything buffered is counted), C19_next_line_always_counted (whatever is buffered, the line that will be read next is counted in full: no look-ahead rule hides it), C19_lookahead_only_skips (what is counted is never longer than what is buffered: the look-ahead cannot make a line look longer than it is). Implementation: line lengths around the limit at every split, endless lines, all short byte strings, every short string over quote/backslash/<>@ as MAIL/RCPT/AUTH=/ORCPT= argument, random binary, error-threshold mixes; a disconnect/QUIT/RSET right after a BDAT command with the command loop not waiting for the delivery goroutine (sched probe, `latestart`): no recovered panic, long lines never reach the backend, short lines never refused, three errors end the connection.',
+ "C19": C('Proved on the wire model: C19_short_lines_ok, C19_long_line_trips (the limiter latches once a line exceeds the limit), C19_long_line_refused (no prefix of an over-long line is executed), C19_tripped_ends_commands (once latched, the command loop reads no further command), C19_error_threshold (the fourth protocol error closes the connection, on the server model), C19_resume_short_ok / C19_resume_counts_pending (the limit coming back after a BDAT chunk - lineLimitReader.resume, repaired in ebe7440: what was counted before is forgotten, so lines within the maximum are never refused, and the beginning of a command line read together with the end of the chunk is counted, so an over-long line trips), C19_line_handed_out_within_limit (every line Conn.readLine hands to the command loop or an AUTH exchange is within the limit in force, whatever was buffered while the limit was lifted for a chunk and however it got there: the length is checked where the line is handed out, which replaced the look-ahead of 8853bc2/ecdb2ac/ab2fa9c). Implementation: line lengths around the limit at every split, endless lines, all short byte strings, every short string over quote/backslash/<>@ as MAIL/RCPT/AUTH=/ORCPT= argument, random binary, error-threshold mixes; a disconnect/QUIT/RSET right after a BDAT command with the command loop not waiting for the delivery goroutine (sched probe, `latestart`): no recovered panic, long lines never reach the backend, short lines never refused, three errors end the connection.',
           'DESIGN.md 0.3 + 7 C19', 'Lean 4 proof (line limiter) + monitors + differential correspondence (conv probe)',
           'which inputs count as protocol errors is decided by monitor + correspondence; the bound on buffered input is a property of the modelled bufio, not observed'),
  "C20": C("PARTIAL. Proved: C20_second_close, C20_temp_errors (Serve survives any run of temporary errors, delays <= 1 s) on the lifecycle model; "
@@ -161,7 +161,7 @@ m = {"version": 1, "setup_cmd": "./setup.sh",
      "hooks": {"guard": "verif",
                "enable": "go build -tags verif (the harness module replaces github.com/emersion/go-smtp by /repo)",
                "baseline_off_cmd": "cd /repo && GOFLAGS=-mod=mod GOPROXY=off GOSUMDB=off go test -count=1 ./...",
-               "source_commits": ["222df5c", "0a94ce4", "43344c1"], "add_only": True},
+               "source_commits": ["222df5c", "0a94ce4", "43344c1", "a794b59"], "add_only": True},
      "engines": [{"name": "smtpv-lean", "path": "lean/", "serves_properties": sorted(CLAIMED),
                   "kind_free_text": "Lean 4 model, specs, theorems and compiled line-protocol driver"},
                  {"name": "vharness", "path": "harness/", "serves_properties": sorted(CLAIMED),
